@@ -14,7 +14,7 @@ import (
 
 type intrinsicFn func(in *Interp, fr *frame, args []Value) Value
 
-var intrinsics map[string]intrinsicFn
+var intrinsics = map[string]intrinsicFn{}
 
 func (in *Interp) intrinsic(fn *ssa.Function) (intrinsicFn, bool) {
 	name := fn.Name()
@@ -34,6 +34,9 @@ func (in *Interp) intrinsic(fn *ssa.Function) (intrinsicFn, bool) {
 		}
 	}
 	h, ok := intrinsics[key]
+	if !ok {
+		h, ok = lateIntrinsics[key]
+	}
 	if ok {
 		in.ex.stats.Stubs["native model: "+key] = true
 	}
@@ -53,8 +56,8 @@ func argInt(in *Interp, v Value) int {
 	return int(int64(in.ex.concretize(t, "intrinsic int arg")))
 }
 
-var verifIntrinsics map[string]intrinsicFn
-var repoIntrinsics map[string]intrinsicFn
+var verifIntrinsics = map[string]intrinsicFn{}
+var repoIntrinsics = map[string]intrinsicFn{}
 
 func init() {
 	nondet := func(w uint8) intrinsicFn {
@@ -62,7 +65,7 @@ func init() {
 			return in.ex.fresh(argStr(args[0]), w)
 		}
 	}
-	verifIntrinsics = map[string]intrinsicFn{
+	for k, v := range map[string]intrinsicFn{
 		"verifU8":  nondet(8),
 		"verifU16": nondet(16),
 		"verifU32": nondet(32),
@@ -161,9 +164,10 @@ func init() {
 			in.sched.maybePreempt()
 			return nil
 		},
+	} {
+		verifIntrinsics[k] = v
 	}
 
-	intrinsics = map[string]intrinsicFn{}
 	reg := func(name string, f intrinsicFn) { intrinsics[name] = f }
 
 	// --- strings / bytes kernels ---
@@ -520,7 +524,7 @@ func init() {
 	reg("sync/atomic.StorePointer", func(in *Interp, fr *frame, args []Value) Value { in.storeTo(args[0], args[1]); return nil })
 
 	// --- repo helpers built on unsafe / runtime introspection ---
-	repoIntrinsics = map[string]intrinsicFn{
+	for k, v := range map[string]intrinsicFn{
 		// *(*string)(unsafe.Pointer(&b)): same bytes viewed as a string (aliasing with later writes to b is not modelled)
 		"/pkg/util.BytesToString": func(in *Interp, fr *frame, args []Value) Value {
 			return mkStr(bytesOfSlice(args[0].(Slice)))
@@ -528,6 +532,8 @@ func init() {
 		"/pkg/util.StringToBytes": func(in *Interp, fr *frame, args []Value) Value {
 			return sliceOfBytes(append([]*Term(nil), strBytes(args[0])...))
 		},
+	} {
+		repoIntrinsics[k] = v
 	}
 	reg("runtime.Caller", func(in *Interp, fr *frame, args []Value) Value {
 		return Tuple{BV(64, 0), "", BV(64, 0), False}
@@ -559,7 +565,20 @@ func init() {
 		tt := in.prog.ImportedPackage("time").Type("Ticker").Type()
 		cell := new(Value)
 		*cell = zero(tt)
-		*structFieldByName(cell, "C") = &Chan{id: in.sched.nextChanID(), env: "ticker"}
+		var ch Value = &Chan{id: in.sched.nextChanID(), env: "ticker"}
+		// harness-controlled tickers: package-level verifTickers handed out in call order
+		if in.mainPkg != nil {
+			if tv, sv := in.mainPkg.Var("verifTickers"), in.mainPkg.Var("verifTickerSeq"); tv != nil && sv != nil {
+				list := load(in.globalAddr(tv)).(Slice)
+				seqCell := in.globalAddr(sv)
+				k := int((*seqCell).(*Term).c)
+				if k < list.len {
+					ch = list.elems()[k]
+					*seqCell = BV(64, uint64(k+1))
+				}
+			}
+		}
+		*structFieldByName(cell, "C") = ch
 		return cell
 	})
 	reg("time.NewTimer", func(in *Interp, fr *frame, args []Value) Value {
@@ -958,6 +977,25 @@ func (in *Interp) errorsIs(fr *frame, err, target Iface) Value {
 				r := in.callSSA(fr, 0, f, []Value{err.V, target}, nil)
 				if rt, ok := r.(*Term); ok && in.ex.branch(rt) {
 					return True
+				}
+			}
+		}
+		// Unwrap() []error (errors.Join)
+		for i := 0; i < ms.Len(); i++ {
+			if ms.At(i).Obj().Name() == "Unwrap" {
+				sig := ms.At(i).Type().(*types.Signature)
+				if sig.Results().Len() == 1 {
+					if _, isSlice := sig.Results().At(0).Type().Underlying().(*types.Slice); isSlice {
+						f := in.prog.MethodValue(ms.At(i))
+						r := in.callSSA(fr, 0, f, []Value{err.V}, nil)
+						for _, e := range r.(Slice).elems() {
+							sub := in.errorsIs(fr, e.(Iface), target).(*Term)
+							if in.ex.branch(sub) {
+								return True
+							}
+						}
+						return False
+					}
 				}
 			}
 		}
